@@ -243,6 +243,12 @@ class Store : public ola::FileBackedPreferences {
  public:
   Store(const string &dir, const string &name, ola::FilePreferenceSaverThread *saver)
       : ola::FileBackedPreferences(dir, name, saver) {}
+  // a key or value of 1000 bytes or more (see driver.ml: per-call keys are then not compared)
+  bool Big() const {
+    for (PreferencesMap::const_iterator it = m_pref_map.begin(); it != m_pref_map.end(); ++it)
+      if (it->first.size() >= 1000 || it->second.size() >= 1000) return true;
+    return false;
+  }
   string Dump() const {
     if (m_pref_map.empty()) return "-";
     string s;
@@ -298,7 +304,7 @@ static string dump_of_image(const Img &img, const string &scratch_dir) {
   return d == "!" ? "-" : d;
 }
 
-struct SaveReport { string calls, images; bool atomic; vector<Img> imgs; Img at_return; };
+struct SaveReport { string calls, images; bool atomic; vector<Img> imgs; Img at_return; bool big; };
 
 // run `act` (something that ends with a Save()) with capture on, then Synchronize()
 template <typename F>
@@ -307,6 +313,7 @@ static SaveReport captured_save(F act) {
   g_calls.clear();
   fd_clear();
   g_imgs.push_back(snapshot());        // image 0: before the first call
+  const bool big = g_store->Big();
   g_capture = true;
   act();
   g_saver->Synchronize();
@@ -316,6 +323,7 @@ static SaveReport captured_save(F act) {
   g_inside--;
   if (g_spurious_seen) usleep(20000);  // (a saver still running after a premature return settles)
   g_capture = false;
+  r.big = big;
   r.calls = g_calls.empty() ? "-" : g_calls;
   r.imgs = g_imgs;
   string scratch = g_dir + "/img";
@@ -324,8 +332,10 @@ static SaveReport captured_save(F act) {
   r.atomic = true;
   for (size_t i = 0; i < r.imgs.size(); i++) {
     string d = load_image(r.imgs[i], scratch);
-    if (i) r.images += "|";
-    r.images += d;
+    if (!big) {
+      if (i) r.images += "|";
+      r.images += d;
+    }
     string dd = d == "!" ? "-" : d;
     if (dd != old && dd != now) r.atomic = false;
   }
@@ -344,7 +354,8 @@ static void set_directory(const Img &img) {
 static string save_keys(const string &n, const SaveReport &r, const Img &final_img) {
   return ";y" + n + "=" + file_s(r.at_return.has_conf, r.at_return.conf) + ";f" + n + "=" + file_s(final_img.has_conf, final_img.conf) +
          ";t" + n + "=" + file_s(final_img.has_tmp, final_img.tmp) +
-         ";c" + n + "=" + r.calls + ";i" + n + "=" + r.images + ";a" + n + "=" + (r.atomic ? "1" : "0");
+         (r.big ? ";xc" + n + "=" + r.calls : ";c" + n + "=" + r.calls + ";i" + n + "=" + r.images) +
+         ";a" + n + "=" + (r.atomic ? "1" : "0");
 }
 
 struct PlainSave { void operator()() const { g_store->Save(); } };
